@@ -20,7 +20,8 @@ from lib import vf
 
 CFG = """SPECIFICATION %(spec)s
 CONSTANTS
-  Backends <- MCBackends
+  Backends <- %(backends)s
+  SchemeOf <- MCSchemeOf
   Slots <- %(slots)s
   Tables <- %(tables)s
   CallUniverse <- %(calls)s
@@ -43,7 +44,7 @@ CHECK_DEADLOCK FALSE
 
 
 def cfg(**k):
-    d = dict(spec="GenSpec", slots="MCSlots2", tables="MCTablesFixed", calls="MCCallsQuick", nc=1, ns=0, nt=0, cc="TRUE", nd=0, nb=0, race="recheck", mid="FALSE")
+    d = dict(spec="GenSpec", backends="MCBackends", slots="MCSlots2", tables="MCTablesFixed", calls="MCCallsQuick", nc=1, ns=0, nt=0, cc="TRUE", nd=0, nb=0, race="recheck", mid="FALSE")
     d.update(k)
     return CFG % d
 
@@ -56,6 +57,16 @@ ACTIONS = ["SetTableAny", "CallStartAny", "Route", "NotFound", "Dial", "Reuse", 
 def read(path):
     with open(path) as fh:
         return [json.loads(l) for l in fh if l.strip()]
+
+
+def read_mid(path):
+    """Behaviours of a (large) sink whose last call has a clean-up pass ("k") or a closing ("d") inside it."""
+    out = []
+    with open(path) as fh:
+        for l in fh:
+            if '"k"' in l or '"d"' in l:
+                out.append(json.loads(l))
+    return out
 
 
 def effective_ticks(b):
@@ -120,7 +131,7 @@ def run(ctx):
     jobs = [
         ("per-call universe", dict(calls=ctx.pick("MCCallsQuick", "MCCallsFull"), slots=ctx.pick("MCSlotsH", "MCSlots4")), sink_call, "mc_call"),
         # flapping backends, and table changes / clean-up while a stream is in flight (zero-weight targets), in one run
-        ("flapping+weights", dict(calls="MCCallsFlap", slots="MCSlotsW", tables="MCTablesFW", nc=2, ns=2, nt=1, mid="TRUE"), sink_flap, "mc_flap"),
+        ("flapping+weights", dict(calls="MCCallsFlap", slots="MCSlotsW", tables="MCTablesFW", backends="MCBackendsTls", nc=2, ns=2, nt=1, mid="TRUE"), sink_flap, "mc_flap"),
         ("histories", dict(calls=ctx.pick("MCCallsHistSmall", "MCCallsHist"), tables="MCTablesAll", nc=3, ns=2, nt=ctx.pick(1, 2)), sink_hist, "mc_hist"),
         ("bursts", dict(calls="MCCallsHistSmall", tables="MCTablesAll", nc=ctx.pick(0, 1), ns=1, nt=1, nb=1), sink_burst, "mc_burst"),
         ("outages", dict(calls="MCCallsOutage", tables="MCTablesAll", nc=ctx.pick(4, 5), ns=1, nt=1, nd=1), sink_out, "mc_outage"),
@@ -250,10 +261,11 @@ def run(ctx):
     # flapping: leave, clean-up, re-enter while the old connection awaits closing, a stream in flight across
     # that closing ("d" somewhere between its first message and its end)
     flaps = []
-    for b in sorted(read(sink_flap), key=key):
+    mid = sorted(read_mid(sink_flap), key=key)
+    for b in mid:
         last = b["steps"][-1]
         ops = [x["op"] for x in b["steps"]]
-        if (last["op"] == "call" and "d" in last.get("ord", []) and ops.count("tick") == 1 and effective_ticks(b) == 1
+        if (last["op"] == "call" and last.get("scheme") != "grpcs" and "d" in last.get("ord", []) and ops.count("tick") == 1 and effective_ticks(b) == 1
                 and not set("tk") & set(last.get("ord", []))):
             pos = last["ord"].index("d")
             if 0 < pos < len(last["ord"]) - 1:
@@ -270,10 +282,10 @@ def run(ctx):
     # a stream in flight on a backend whose traffic is moved away ("t": it stays in the table with weight 0) and
     # that outlives a clean-up pass ("k"), with messages still to be exchanged afterwards
     weights = []
-    for b in sorted(read(sink_w), key=key):
+    for b in mid:
         last = b["steps"][-1]
         o = last.get("ord", [])
-        if (last["op"] == "call" and len(b["steps"]) == 2 and "t" in o and "k" in o and "d" not in o and 0 < o.index("t") < o.index("k")
+        if (last["op"] == "call" and last.get("scheme") != "grpcs" and len(b["steps"]) == 2 and "t" in o and "k" in o and "d" not in o and 0 < o.index("t") < o.index("k")
                 and any(e in ("q", "r") for e in o[o.index("k"):]) and any(r.get("zero") and r["be"] == last["be"] for r in last["tabs"][0])):
             b["drive"] = "lock"
             weights.append(b)
@@ -282,6 +294,26 @@ def run(ctx):
     if not weights:
         ctx.inconclusive("the generator produced no behaviour with a stream on a backend that is moved to weight 0")
         return
+    # a stream to a backend reached through a grpcs:// target (TLS upstream) that lives across a clean-up pass ("k"),
+    # with messages still to be exchanged afterwards; with and without its traffic being moved away first ("t")
+    tls_k, tls_tk = [], []
+    for b in mid:
+        last = b["steps"][-1]
+        o = last.get("ord", [])
+        if (last["op"] == "call" and last.get("scheme") == "grpcs" and len(b["steps"]) == 2 and "k" in o and "d" not in o
+                and 0 < o.index("k") and any(e in ("q", "r") for e in o[o.index("k"):])):
+            if "t" not in o:
+                tls_k.append(b)
+            elif o.index("t") < o.index("k") and any(r.get("zero") and r["be"] == last["be"] for r in last["tabs"][0]):
+                tls_tk.append(b)
+    rnd.shuffle(tls_k)
+    rnd.shuffle(tls_tk)
+    if not tls_k or not tls_tk:
+        ctx.inconclusive("the generator produced no behaviour with a stream on a grpcs:// backend across a clean-up pass")
+        return
+    tls = tls_k[:1] + tls_tk[:ctx.pick(0, 2)] + tls_k[1:ctx.pick(1, 2)]
+    for b in tls:
+        b["drive"] = "lock"
     if not ctx.thorough:
         chosen_ticks = []       # the flapping behaviour also dials, leaves, is cleaned up and dials again
         burst_tick_q = []       # (bursts followed by leaving and clean-up: thorough)
@@ -317,10 +349,10 @@ def run(ctx):
     if not lims:
         ctx.inconclusive("the generator produced no behaviour for the size limits")
         return
-    allb = calls + plain + lims + burst_plain + chosen_ticks + chosen_flap + weights + burst_tick_q + chosen_out + selftests
+    allb = calls + plain + lims + burst_plain + chosen_ticks + chosen_flap + weights + tls + burst_tick_q + chosen_out + selftests
     for i, b in enumerate(allb):
         b["idx"] = i + 1
-    for b in chosen_ticks + chosen_flap + weights + burst_tick_q + chosen_out:
+    for b in chosen_ticks + chosen_flap + weights + tls + burst_tick_q + chosen_out:
         ctx.log("  closing-tick behaviour: " + " ".join(
             s["op"] + (":" + (s.get("be") or "-") + "/" + s.get("conn", "") + ("/" + "".join(s["ord"]) if set("dtk") & set(s.get("ord", [])) else "") if s["op"] == "call" else
                        ":" + ",".join(s.get("closed", [])) if s["op"] == "tick" else
@@ -328,9 +360,9 @@ def run(ctx):
                        ":" + ",".join(sorted(set(r["be"] for r in s["table"])))) for s in b["steps"]))
     # The behaviours that wait for the proxy's own timers (clean-up period, grace, reconnect back-off) each get a
     # test process of their own -- every process has its own routing table -- beside the one that replays the rest.
-    waiting = chosen_ticks + chosen_flap + weights + burst_tick_q + chosen_out
+    waiting = tls + chosen_ticks + chosen_flap + weights + burst_tick_q + chosen_out
     wait_ids = {id(b) for b in waiting}
-    groups = [[b for b in allb if id(b) not in wait_ids]] + [[] for _ in range(min(3, len(waiting)))]
+    groups = [[b for b in allb if id(b) not in wait_ids]] + [[] for _ in range(min(4, len(waiting)))]
     for i, b in enumerate(waiting):
         groups[1 + i % (len(groups) - 1)].append(b)
     case_files = []
